@@ -27,16 +27,51 @@ def child_table_attr(ctx, an: Anchors) -> tuple:
 
 def component_state(ctx, an: Anchors) -> tuple:
     """(state attribute on the component context, enum class name)"""
-    for name in ("add_resource", "add_resource_factory"):
-        w = an.ComponentContext.methods.get(name)
-        if w is None:
-            continue
+    for w in an.ComponentContext.methods.values():
         for n in walk_own(w.node):
-            if isinstance(n, ast.Compare) and len(n.ops) == 1 and isinstance(n.ops[0], (ast.Is, ast.Eq)):
+            if isinstance(n, ast.Compare) and len(n.ops) == 1 and isinstance(n.ops[0], (ast.Is, ast.Eq, ast.In)):
                 l, r = n.left, n.comparators[0]
+                if isinstance(r, (ast.Tuple, ast.Set, ast.List)) and r.elts:
+                    r = r.elts[0]
                 if self_attr(l) and isinstance(r, ast.Attribute) and isinstance(r.value, ast.Name) and r.value.id in ctx.p.classes:
                     return self_attr(l), r.value.id
-    raise AnalysisError("anchor-missing component state test in the ComponentContext wrappers")
+    raise AnalysisError("anchor-missing component state test in ComponentContext")
+
+
+def remap_spec(ctx, an: Anchors, w: FuncInfo):
+    """How wrapper `w` rewrites its `name` parameter before forwarding:
+    (where: FuncInfo, cfg node of the rewrite, condition expr or None, value expr, cfg node in w)
+    Follows one level of helper extraction: name = self._helper(name)."""
+    a = ctx.a
+    wcfg = a.cfg(w)
+    for n in wcfg.live_nodes():
+        if n.kind == "stmt" and isinstance(n.ast, ast.Assign) and any(isinstance(t, ast.Name) and t.id == "name" for t in n.ast.targets):
+            v = n.ast.value
+            if isinstance(v, ast.Call):
+                c = a.callee(w, v)
+                if c.kind == "func" and c.func.cls is not None and v.args and isinstance(v.args[0], ast.Name) and v.args[0].id == "name":
+                    h = c.func
+                    hcfg = a.cfg(h)
+                    hp = [x for x in h.params if x != "self"][0]
+                    rets = [x for x in hcfg.live_nodes() if x.kind == "stmt" and isinstance(x.ast, ast.Return) and x.ast.value is not None]
+                    remap_rets = [x for x in rets if not (isinstance(x.ast.value, ast.Name) and x.ast.value.id == hp)]
+                    if len(remap_rets) == 1:
+                        from .discharge import controlling_tests, subst
+
+                        cond = None
+                        for t, lab in controlling_tests(hcfg, remap_rets[0]):
+                            if lab == "t":
+                                cond = subst(t.ast, {hp: ast.Name(id="name", ctx=ast.Load())})
+                        return h, remap_rets[0], cond, remap_rets[0].ast.value, n
+                    return h, None, None, None, n
+            from .discharge import controlling_tests
+
+            cond = None
+            for t, lab in controlling_tests(wcfg, n):
+                if lab == "t":
+                    cond = t.ast
+            return w, n, cond, v, n
+    return None
 
 
 def run(ctx) -> None:
@@ -82,6 +117,10 @@ def run(ctx) -> None:
         else:
             rep.unrecognised("C14.R1", init, call, f"cannot attribute the merge arguments (arg0 hard={hard(c0)} ext={external(c0)}; arg1 hard={hard(c1)} ext={external(c1)})")
     rep.floor("C14.R1", len(merges), 1)
+    # the layered merge is only as good as merge_config itself: deep, right-biased, pure
+    from .common import include_rules
+
+    include_rules(ctx, "c17", "C14.R1", only=("C17.R2", "C17.R3"))
 
     # ------------------------------------------------------------------ R2 config-only children are created, recursion
     rec_calls = [(call, c) for call, c in a.func_calls(init) if c.kind == "func" and c.func is init]
@@ -157,25 +196,24 @@ def run(ctx) -> None:
             rep.violate("C14.R4", None, None, f"ComponentContext does not override {name}: default names are never remapped")
             continue
         wcfg = a.cfg(w)
-        remaps = []
-        for n in wcfg.live_nodes():
-            if n.kind == "stmt" and isinstance(n.ast, ast.Assign) and any(isinstance(t, ast.Name) and t.id == "name" for t in n.ast.targets):
-                remaps.append(n)
         delegate = [n for n in wcfg.live_nodes() if any(c.kind == "func" and c.func is an.ctx_method(name) for _, c in a.node_calls(w, wcfg, n))]
-        if not remaps:
+        spec = remap_spec(ctx, an, w)
+        if spec is None:
             rep.violate("C14.R4", w, w.node, "the default resource name is never remapped to the alias suffix")
             continue
-        rn = remaps[0]
-        from .discharge import controlling_tests
-
-        tests = controlling_tests(wcfg, rn)
-        cond = None
-        for t, lab in tests:
-            if lab == "t":
-                cond = t.ast
-        if cond is None:
-            rep.violate("C14.R4", w, rn.ast, "the name is remapped unconditionally: explicitly named resources are renamed too")
+        where, rnode, cond, val, wn = spec
+        if rnode is None:
+            rep.unrecognised("C14.R4", where, where.node, "remap helper has an unrecognised shape")
             continue
+
+        class _RN:
+            ast = rnode.ast
+
+        rn = _RN()
+        if cond is None:
+            rep.violate("C14.R4", where, rnode.ast, "the name is remapped unconditionally: explicitly named resources are renamed too")
+            continue
+        tests = [(wn, "n")]
         conj = cond.values if isinstance(cond, ast.BoolOp) and isinstance(cond.op, ast.And) else [cond]
         has_default = any(isinstance(c, ast.Compare) and isinstance(c.left, ast.Name) and c.left.id == "name" and isinstance(c.ops[0], ast.Eq) and is_const(c.comparators[0], "default") for c in conj)
         st = [c for c in conj if isinstance(c, ast.Compare) and self_attr(c.left) == state_attr and isinstance(c.ops[0], (ast.Is, ast.Eq))]
@@ -184,15 +222,22 @@ def run(ctx) -> None:
         rep.check(
             "C14.R4",
             ok,
-            w,
+            where,
             cond,
             "name is remapped iff it equals 'default' and the component is in its start() phase",
             f"remap condition `{ast.unparse(cond)}` is not (name == 'default' and state is starting): "
             + ("explicitly named resources are remapped" if not has_default else "resources added outside start() (e.g. in prepare()) are remapped, or never"),
         )
-        val = rn.ast.value
-        rep.check("C14.R4", self_attr(val) is not None, w, rn.ast, f"remapped to self.{self_attr(val)}", f"remapped to `{ast.unparse(val)}`")
-        rep.check("C14.R4", bool(delegate) and all(wcfg.dominates(t.id, d.id) for t, _ in tests for d in delegate), w, rn.ast, "the remap is decided before forwarding to the real context", "the delegate call is reachable without passing the remap")
+        rep.check("C14.R4", self_attr(val) is not None, where, rn.ast, f"remapped to self.{self_attr(val)}", f"remapped to `{ast.unparse(val)}`")
+        # the remap is decided before forwarding: for the inline form the controlling test
+        # dominates the delegate, for the helper form the assignment from the helper does
+        if where is w:
+            from .discharge import controlling_tests as _ct
+
+            doms = [t for t, lab in _ct(wcfg, rnode) if lab == "t"]
+        else:
+            doms = [wn]
+        rep.check("C14.R4", bool(delegate) and bool(doms) and all(wcfg.dominates(t.id, d.id) for t in doms for d in delegate), w, rn.ast, "the remap is decided before forwarding to the real context", "the delegate call is reachable without passing the remap")
         # the remapped name is what is forwarded
         for d in delegate:
             for call, c in a.node_calls(w, wcfg, d):
@@ -340,11 +385,10 @@ def _remap_value(ctx, an: Anchors, init: FuncInfo, rd: ReachingDefs, rec_calls: 
         return
     # parameter of ComponentContext.__init__ stored in the remap attribute
     remap_attr = None
-    for name in ("add_resource",):
-        w = an.ComponentContext.methods.get(name)
-        for n in walk_own(w.node):
-            if isinstance(n, ast.Assign) and any(isinstance(t, ast.Name) and t.id == "name" for t in n.targets) and self_attr(n.value):
-                remap_attr = self_attr(n.value)
+    w = an.ComponentContext.methods.get("add_resource")
+    spec = remap_spec(ctx, an, w) if w is not None else None
+    if spec is not None and spec[3] is not None:
+        remap_attr = self_attr(spec[3])
     src_param = None
     for n in walk_own(cc_init.node):
         if isinstance(n, ast.Assign) and any(self_attr(t) == remap_attr for t in n.targets) and isinstance(n.value, ast.Name):
